@@ -129,13 +129,42 @@ class World:
     def local_class_aliases(self, fi):
         """name -> [ClassInfo] for `x = SomeClass` assignments in the scope."""
         out = {}
-        for n in self.own(fi):
-            if isinstance(n, ast.Assign) and isinstance(n.value, ast.Name):
-                ci = self.prog.resolve_class(n.value.id, fi.module)
+
+        def classes_of(v, depth=0):
+            """Classes an expression can denote: a class name, `A if c else B`, `TABLE[k]` / `TABLE.get(k, Default)` over
+            a module-level dict display whose values are class names."""
+            if depth > 3:
+                return []
+            if isinstance(v, ast.Name):
+                ci = self.prog.resolve_class(v.id, fi.module)
                 if ci is not None:
+                    return [ci]
+                # a module-level constant bound once to such an expression
+                binds = [st.value for st in fi.module.tree.body if isinstance(st, ast.Assign) and len(st.targets) == 1 and isinstance(st.targets[0], ast.Name) and st.targets[0].id == v.id]
+                if len(binds) == 1:
+                    return classes_of(binds[0], depth + 1)
+                return []
+            if isinstance(v, ast.IfExp):
+                a, b = classes_of(v.body, depth + 1), classes_of(v.orelse, depth + 1)
+                return a + b if a and b else []
+            if isinstance(v, ast.Dict) and v.values and all(k is not None for k in v.keys):
+                vals = [classes_of(x, depth + 1) for x in v.values]
+                return [c for cs in vals for c in cs] if all(vals) else []
+            if isinstance(v, ast.Subscript):
+                return classes_of(v.value, depth + 1)
+            if isinstance(v, ast.Call) and isinstance(v.func, ast.Attribute) and v.func.attr == "get" and 1 <= len(v.args) <= 2 and not v.keywords:
+                table = classes_of(v.func.value, depth + 1)
+                dflt = classes_of(v.args[1], depth + 1) if len(v.args) == 2 else []
+                return table + dflt if table and (dflt or len(v.args) == 1) else []
+            return []
+
+        for n in self.own(fi):
+            if isinstance(n, ast.Assign):
+                cs = classes_of(n.value)
+                for ci in cs:
                     for t in n.targets:
-                        if isinstance(t, ast.Name):
-                            out.setdefault(t.id, []).append(ci)
+                        if isinstance(t, ast.Name) and ci not in out.setdefault(t.id, []):
+                            out[t.id].append(ci)
         return out
 
     def resolve_call(self, call, fi):
